@@ -171,9 +171,20 @@ def run(rep, tier, parts=("jit", "jit-base", "ctor", "interp", "cranelift")):
             fn = F.fns.get(kind + "::jit_compile")
             got = None
             if fn:
-                for n in walk(fn["thir"]["body"]):
-                    if n.get("k") == "call" and (callee_path(n) or "").endswith("JitMemory::new"):
-                        got = [strip(a).get("v") for a in n["args"] if strip(a).get("k") == "lit" and strip(a).get("lk") == "bool"]
+                # evaluated (through a shared private helper if there is one): the two boolean arguments with which the
+                # code memory is built on every path that builds it
+                import props.c10 as c10f
+                evf = symex.Evaluator(F, opaque_calls=lambda q: q.endswith("JitMemory::new"))
+                try:
+                    _k, _sv, outsf = c10f.run_method(evf, F, kind + "::jit_compile", [])
+                except Exception:
+                    outsf = []
+                seen = set()
+                for _v, stf in outsf:
+                    for e in stf.effects:
+                        if e[0] == "call" and isinstance(e[1], str) and e[1].endswith("JitMemory::new"):
+                            seen.add(tuple(bool(a[2]) for a in e[2] if isinstance(a, tuple) and len(a) == 3 and a[0] == "k" and a[1] == 1))
+                got = list(seen.pop()) if len(seen) == 1 else (sorted(seen) or None)
             rep.ob(rw, "%s::jit_compile" % kind, got == want, "%s::jit_compile flags (use_mbuff, update_data_ptr)" % kind, expected=want, found=got)
         import props.c10 as c10j
         for kind in ("EbpfVmMbuff", "EbpfVmFixedMbuff", "EbpfVmRaw", "EbpfVmNoData"):
